@@ -23,21 +23,21 @@ STD = 'std axioms A1-A12 of DESIGN.md 2.4 (Box, cmp::max/min for a lawful Ord, V
 PROPS = {
     'C01': dict(
         title='Range satisfaction follows npm range semantics (AST level)',
-        obligations=ORDER + BOUNDS + SAT + RANGE_SPEC + ['mod:m_npm', 'fn:BoundSet::intersect', 'fn:intersect_all'] + DESUGAR + ['fn:range_set_check', 'fn:lemma_c01_alternative', 'fn:lemma_c01_range', 'fn:lemma_c01_parse_failure', 'fn:lemma_shape_none_is_empty', 'fn:lemma_shape_c_repr', 'fn:lemma_shape_equiv_repr'],
+        obligations=ORDER + BOUNDS + SAT + RANGE_SPEC + ['mod:m_npm', 'fn:BoundSet::intersect', 'fn:intersect_all'] + DESUGAR + ['fn:range_set_check', 'fn:lemma_c01_alternative', 'fn:lemma_c01_range', 'fn:empty_range_desugar', 'fn:lemma_c01_parse_failure', 'fn:lemma_shape_none_is_empty', 'fn:lemma_shape_c_repr', 'fn:lemma_shape_equiv_repr'] + ['fn:cover_plain', 'fn:cover_caret', 'fn:cover_tilde', 'fn:cover_hyphen'] + ['fn:cover_primitive_' + o for o in ('Exact', 'GreaterThan', 'GreaterThanEquals', 'LessThan', 'LessThanEquals')],
         assumptions=[TEXT_SHELL, STD, 'node-semver README / range.js 7.6.2 desugaring tables transcribed by hand into npm_spec.rs; `*` is `>=0.0.0` as the README states (node\'s internal `>=0.0.0 -> *` shortcut is not modelled)'],
         not_decided=['text -> (operator, Partial) tokenisation incl. leading zeros, `v` prefix, blanks after operators, garbage tokens: covered by the bounded stand-in only'],
         witness='c01',
     ),
     'C02': dict(
         title='space joined comparators intersect, alternatives unite (AST level)',
-        obligations=ORDER + BOUNDS + SAT + RANGE_SPEC + ['mod:m_npm', 'fn:BoundSet::intersect', 'fn:intersect_all', 'fn:lemma_c02_order_irrelevant', 'fn:lemma_c02_union', 'fn:lemma_c01_alternative'],
+        obligations=ORDER + BOUNDS + SAT + RANGE_SPEC + ['mod:m_npm', 'fn:BoundSet::intersect', 'fn:intersect_all', 'fn:empty_range_desugar', 'fn:lemma_c02_order_irrelevant', 'fn:lemma_c02_union', 'fn:lemma_c02_concat', 'fn:lemma_c01_alternative'],
         assumptions=[TEXT_SHELL, STD, '`bound_sets` flattens the per-alternative vectors in order (one std expression, not extracted)'],
         not_decided=['concatenation of range *texts* (a b, a || b) -> concatenation of comparator lists'],
         witness='c02',
     ),
     'C03': dict(
         title='prerelease gate',
-        obligations=ORDER + BOUNDS + SAT + RANGE_SPEC + ['mod:m_npm', 'fn:BoundSet::intersect', 'fn:intersect_all'] + DESUGAR + ['fn:lemma_c03_release_unaffected', 'fn:lemma_c03_build_irrelevant', 'fn:lemma_c03_gate_needs_same_tuple', 'fn:lemma_c01_alternative', 'fn:lemma_shape_c_repr', 'fn:lemma_shape_equiv_repr'],
+        obligations=ORDER + BOUNDS + SAT + RANGE_SPEC + ['mod:m_npm', 'fn:BoundSet::intersect', 'fn:intersect_all'] + DESUGAR + ['fn:lemma_c03_release_unaffected', 'fn:lemma_c03_build_irrelevant', 'fn:lemma_c03_gate_needs_same_tuple', 'fn:lemma_c03_tagged_then_bounds_decide', 'fn:lemma_c03_one_alternative', 'fn:lemma_c01_alternative', 'fn:lemma_shape_c_repr', 'fn:lemma_shape_equiv_repr'],
         assumptions=[TEXT_SHELL, STD],
         not_decided=['that the comparator "as written" in the text is the one whose Partial reaches the desugaring closure'],
         witness='c03',
@@ -67,7 +67,7 @@ PROPS = {
         title='difference is set difference',
         obligations=ORDER + BOUNDS + RANGE_SPEC + ['fn:BoundSet::intersect', 'fn:BoundSet::difference', 'fn:Range::difference', 'fn:Range::intersect', 'fn:lemma_c08_partition', 'fn:lemma_c08_release_sat', 'fn:lemma_c08_disjoint_from_b'],
         assumptions=[STD],
-        not_decided=[],
+        not_decided=['prerelease membership of a \\ b is decided against the relation rdiff_post (bounds of a, outside the bounds of b, gate of a); that this relation is the intended reading for prereleases is taken from the property text'],
         witness='c08',
     ),
     'C09': dict(
@@ -94,9 +94,9 @@ PROPS = {
     ),
     'C14': dict(
         title='max_satisfying / min_satisfying',
-        obligations=ORDER + BOUNDS + RANGE_SPEC + SAT + ['fn:Range::max_satisfying', 'fn:Range::min_satisfying', 'fn:lemma_c14_order_independent'],
+        obligations=ORDER + BOUNDS + RANGE_SPEC + SAT + ['fn:Range::max_satisfying', 'fn:Range::min_satisfying', 'fn:lemma_c14_order_independent', 'fn:lemma_c14_order_independent_min'],
         assumptions=[STD, 'A8: std contract of slice.iter().filter(p).max()/min() (stub whose body is the original expression)'],
-        not_decided=[],
+        not_decided=['the result is a reference into the slice: proved equal by value to a maximal / minimal satisfying element (last maximal, first minimal), reference identity is not expressible'],
         witness='c14',
     ),
     'C15': dict(
@@ -104,13 +104,13 @@ PROPS = {
         obligations=ORDER + BOUNDS + RANGE_SPEC + ['fn:BoundSet::intersect', 'fn:BoundSet::difference', 'fn:Range::intersect', 'fn:Range::difference',
                                                    'fn:lemma_c15_commutative', 'fn:lemma_c15_associative', 'fn:lemma_c15_idempotent', 'fn:lemma_c15_a_minus_a', 'fn:lemma_c15_diff_disjoint', 'fn:lemma_c15_partition', 'fn:lemma_c15_double_difference'],
         assumptions=[STD],
-        not_decided=['results are printable and re-parsable (text shell)'],
+        not_decided=['results are printable and re-parsable (text shell)', 'for prereleases the identities are proved over `within` (bounds) and, where the property says so, over satisfaction with the opt-in gate the operands carry; identities between printed forms are not claimed'],
         witness='c15',
     ),
     'C16': dict(
         title='Version::diff',
-        obligations=ORDER + ['fn:Version::diff', 'fn:lemma_diff_symmetric', 'fn:lemma_diff_none_iff_equal', 'fn:lemma_diff_prerelease', 'fn:lemma_c16_build_irrelevant'],
-        assumptions=[STD, 'diff_spec is node-semver 7.6.2 functions/diff.js transcribed by hand'],
+        obligations=ORDER + ['fn:Version::diff', 'fn:lemma_diff_symmetric', 'fn:lemma_diff_none_iff_equal', 'fn:lemma_diff_prerelease', 'fn:lemma_c16_build_irrelevant', 'fn:lemma_c16_most_significant'],
+        assumptions=[STD, 'diff_spec is node-semver 7.6.2 functions/diff.js transcribed by hand (7.7.0 changed prerelease -> release results such as 1.1.0-pre vs 1.2.1; the crate ports 7.6.2, the property names the documented special cases); lemma_c16_most_significant restates it independently of the branch order'],
         not_decided=['VersionDiff Display'],
         witness='c16',
     ),
